@@ -7,10 +7,8 @@ import (
 	"io/ioutil"
 	"os"
 	"path/filepath"
-	"regexp"
 	"runtime/debug"
 	"sort"
-	"strconv"
 	"strings"
 
 	"github.com/lyraproj/issue/issue"
@@ -132,7 +130,6 @@ func walkOf(base string) []WalkEntry {
 
 // ---- running
 
-var markerRx = regexp.MustCompile(`Integer\[(\d+)`)
 
 func relTo(root, p string) (string, bool) {
 	if strings.HasPrefix(p, root+string(filepath.Separator)) {
@@ -155,10 +152,16 @@ func describeValue(v interface{}) Outcome {
 		return o
 	}
 	if at, ok := t.(*types.TypeAliasType); ok {
+		// the marker is the bound of the Integer the alias stands for (alone, or first in a Tuple); an alias
+		// that was bound but never resolved has none (ResolvedType panics)
 		func() {
 			defer func() { _ = recover() }()
-			if m := markerRx.FindStringSubmatch(at.ResolvedType().String()); m != nil {
-				o.Marker, _ = strconv.Atoi(m[1])
+			rt := at.ResolvedType()
+			if tt, ok := rt.(*types.TupleType); ok && len(tt.Types()) > 0 {
+				rt = tt.Types()[0]
+			}
+			if it, ok := rt.(*types.IntegerType); ok {
+				o.Marker = int(it.Min())
 			}
 		}()
 	}
@@ -283,7 +286,7 @@ func runCase(cs *Case, root string) (res CaseResult) {
 					}
 					pred := func(tn px.TypedName) bool { return tn.Namespace() == px.NsType }
 					inParent := map[string]bool{}
-					for _, tn := range parent.Discover(c, pred) {
+					for _, tn := range fbParent.Discover(c, pred) {
 						inParent[tn.MapKey()] = true
 					}
 					names := []string{}
